@@ -59,6 +59,7 @@ pub const MENU_M: &[&str] = &[
     "ADD b a",
     "NEG b",
     "EXCHANGE a b",
+    "EXCHANGE a a",
     "SHIFT-PHASE 1 \"a\" b",
     "DELAY 1 \"a\" a",
     "NONBLOCKING RAW-CAPTURE 0 \"b\" 1.0 b",
@@ -1134,7 +1135,7 @@ pub static C22: PropDef = PropDef {
     id: "C22",
     level: "model_checking",
     engine: "sweep",
-    rule: "every instruction sequence of length <= 3 (thorough 5) over the 28-instruction frame/classical/control-flow menu and over the 21-instruction memory menu x 3 terminators, built on a fixed 4-frame header; each is scheduled by the real ScheduledProgram and every block's graph is checked (edges forward, acyclic, rooted, reaches end). state = a schedulable program; non-trivial = schedulable program with at least one instruction-to-instruction edge (distinct by sequence)",
+    rule: "every instruction sequence of length <= 3 (thorough 5) over the 28-instruction frame/classical/control-flow menu and over the 22-instruction memory menu x 3 terminators, built on a fixed 4-frame header; each is scheduled by the real ScheduledProgram and every block's graph is checked (edges forward, acyclic, rooted, reaches end). state = a schedulable program; non-trivial = schedulable program with at least one instruction-to-instruction edge (distinct by sequence)",
     assumptions: ASSUME,
     run: |ctx| {
         let l = ctx.tier.pick(3, 5);
@@ -1153,7 +1154,7 @@ pub static C23: PropDef = PropDef {
     id: "C23",
     level: "model_checking",
     engine: "queue",
-    rule: "(A) every sequence of length <= 3 (thorough 5) over a 21-instruction memory menu (regions a,b: every access shape incl. comparisons / STORE with immediates and CALL with a mutable and an immutable parameter, two captures into one region on disjoint non-blocking frames) and of length <= 2 (4) over the 28-instruction general menu, x 3 terminators, scheduled by the real code; (B) every access sequence (Read/Write/Capture) of length <= 8 (11 thorough) on one real DependencyQueue and every sequence of <= 4 (5) multi-queue actions on two queues, through the hook; (C) a TLA+ model of the queue (tla/DependencyQueue.tla) checked by TLC for TypeOK, SequentiallyConsistent, Justified, Rooted, PendingExact over all histories of length <= 6 (8), with EVERY state of TLC's dumped graph replayed on the real queue (conformance). non-trivial = program with >= 1 conflicting memory pair / queue sequence of length >= 2",
+    rule: "(A) every sequence of length <= 3 (thorough 5) over a 22-instruction memory menu (regions a,b: every access shape incl. comparisons / STORE with immediates and CALL with a mutable and an immutable parameter, two captures into one region on disjoint non-blocking frames) and of length <= 2 (4) over the 28-instruction general menu, x 3 terminators, scheduled by the real code; (B) every access sequence (Read/Write/Capture) of length <= 8 (11 thorough) on one real DependencyQueue and every sequence of <= 4 (5) multi-queue actions on two queues, through the hook; (C) a TLA+ model of the queue (tla/DependencyQueue.tla) checked by TLC for TypeOK, SequentiallyConsistent, Justified, Rooted, PendingExact over all histories of length <= 6 (8), with EVERY state of TLC's dumped graph replayed on the real queue (conformance). non-trivial = program with >= 1 conflicting memory pair / queue sequence of length >= 2",
     assumptions: ASSUME,
     run: |ctx| {
         ctx.bound("menu_memory", json!(MENU_M));
